@@ -1,4 +1,4 @@
-CONSTANTS MaxPts = 5 MaxCount = 2 MaxArrivals = 6 Init0 = 0 SimDepth = 0
+CONSTANTS MaxPts = 5 MaxCount = 2 MaxArrivals = 5 Init0 = 0 MinCount = 0 SimDepth = 0
 INIT Init
 NEXT Next
 VIEW View
